@@ -204,22 +204,28 @@ def build : Block → Tree
 
 /-! ### position-based resolution -/
 
-/-- `FindMinScope`: the chain of scopes from the smallest one containing the position up to the
-    root (innermost first); `none` if the root does not contain it -/
-partial def findMinChain (t : Tree) (line col : Int) : Option (List Tree) :=
-  if !isInLocation t.loc line col then none
-  else
-    let rec scan : List Tree → Option (List Tree)
-      | [] => none
-      | s :: rest =>
-        if s.loc.el < line then scan rest
-        else if isInLocation s.loc line col then
-          (findMinChain s line col)       -- a match ends the search (break)
-        else if s.loc.sl > line then none
-        else scan rest
-    match scan t.subs with
-    | some chain => some (chain ++ [t])
-    | none => some [t]
+mutual
+/-- `FindMinScope` inside a scope whose Loc contains the position: the chain of scopes from the smallest one
+    containing the position up to this one (innermost first) -/
+def chainIn : Tree → Int → Int → List Tree
+  | .mk l vs subs, line, col =>
+    match scanSubs subs line col with
+    | some ch => ch ++ [.mk l vs subs]
+    | none => [.mk l vs subs]
+/-- the loop over `SubScopes`: a child that ends before the line is skipped, the first child whose Loc contains
+    the position ends the search, every other child is passed over (sub-scopes are in traversal order, which
+    is not always the source order: there is no early exit) -/
+def scanSubs : List Tree → Int → Int → Option (List Tree)
+  | [], _, _ => none
+  | s :: rest, line, col =>
+    if s.loc.el < line then scanSubs rest line col
+    else if isInLocation s.loc line col then some (chainIn s line col)
+    else scanSubs rest line col
+end
+
+/-- `FindMinScope`: `none` if the root does not contain the position -/
+def findMinChain (t : Tree) (line col : Int) : Option (List Tree) :=
+  if !isInLocation t.loc line col then none else some (chainIn t line col)
 
 /-- `FindLocVar` along the chain: in each scope the LAST declared variable of that name whose
     position test succeeds -/
